@@ -211,7 +211,7 @@ theorem jf_of_qf {x y : FCfg} (h : JF a0 x) (q : QF x y) (k : K a0 y) (s : SI y)
   · intro hq; rw [q'.int (h.qs (hquiet hq))]; exact h.qi (hquiet hq)
   · intro hq; rw [q'.stepping]; exact h.qs (hquiet hq)
 
-theorem jf_of_old {x y : FCfg} (k : K a0 y) (h : Inv10 y.l.c) (hi : y.inState = true) : JF a0 y :=
+theorem jf_of_old {y : FCfg} (k : K a0 y) (h : Inv10 y.l.c) (hi : y.inState = true) : JF a0 y :=
   ⟨k, ⟨h.s, hi⟩, h.ia, h.qi, h.qs⟩
 
 theorem finishUserF_tick (hA : NA a0 N) (hac : afterClose a0 = false) (hnb : NoTC a0) (x : FCfg) (o : Outcome)
@@ -409,6 +409,99 @@ theorem tickStepperF_jf (hA : NA a0 N) (hac : afterClose a0 = false) (hnb : NoTC
     · exact h
   · exact h
 
+/-! ### the other events -/
+
+theorem tickCbF_jf (hA : NA a0 N) (hac : afterClose a0 = false) (hnb : NoTC a0) (x : FCfg) (cb : Cb) (h : JF a0 x) :
+    JF a0 (tickCbF N x cb) := by
+  have hkr := tickCbF_K hA.k hac x cb h.k
+  unfold tickCbF at hkr ⊢
+  by_cases hc : x.l.c.ready.contains cb = true
+  · simp only [hc, if_true] at hkr ⊢
+    have k1 : K a0 (x.updC fun c => { c with ready := c.ready.erase cb }) :=
+      K.upd h.k _ ⟨rfl, rfl, rfl, rfl, rfl, rfl⟩ (fun _ => rfl)
+    have h1 : JF a0 (x.updC fun c => { c with ready := c.ready.erase cb }) :=
+      jf_of_old k1 (h.old.same rfl rfl rfl rfl rfl rfl rfl rfl) h.s.2
+    cases cb with
+    | adone f => exact jf_of_old hkr (awaitableDone_inv10 _ _ h1.old) h.s.2
+    | trykill =>
+      simp only at hkr ⊢
+      unfold tryKillingF at hkr ⊢
+      have hs2 := killF_s hA.k hA.s hA.q hac hnb _ k1 h1.s
+      have k2 := killF_K hA.k hac _ k1
+      have h2 := jf_of_qf h1 (killF_qf hA.q _) k2 hs2
+      have h3 : JF a0 (toLoop (killF N (x.updC fun c => { c with ready := c.ready.erase Cb.trykill }))) := by
+        unfold toLoop; split
+        · exact jf_of_old (K.upd k2 _ ⟨rfl, rfl, rfl, rfl, rfl, rfl⟩ (fun _ => rfl))
+            (h2.old.same rfl rfl rfl rfl rfl rfl rfl rfl) h2.s.2
+        · exact h2
+      exact jf_of_old hkr (h3.old.same rfl rfl rfl rfl rfl rfl rfl rfl) h3.s.2
+    | usercb raises =>
+      cases raises with
+      | false => exact h1
+      | true =>
+        simp only [if_true]
+        have hs2 := failF_s hA.k hA.s hA.q hac hnb _ (.user 8) k1 h1.s
+        have k2 := failF_K hA.k hac _ (.user 8) k1
+        have h2 := jf_of_qf h1 (failF_qf hA.q _ _) k2 hs2
+        unfold toLoop; split
+        · exact jf_of_old (K.upd k2 _ ⟨rfl, rfl, rfl, rfl, rfl, rfl⟩ (fun _ => rfl))
+            (h2.old.same rfl rfl rfl rfl rfl rfl rfl rfl) h2.s.2
+        · exact h2
+  · simp only [hc] at hkr ⊢
+    exact h
+
+/-- every event keeps the invariant -/
+theorem stepFN_jf (hA : NA a0 N) (hac : afterClose a0 = false) (hnb : NoTC a0) (P : Prog) (x : FCfg) (ev : Ev) (h : JF a0 x) :
+    JF a0 (stepFN N P x ev).1 := by
+  have hkr := stepFN_K hA.k hac P x ev h.k
+  cases ev <;> simp only [stepFN] at hkr ⊢
+  · exact tickStepperF_jf hA hac hnb P x h
+  · exact tickCbF_jf hA hac hnb x _ h
+  · exact jf_of_qf h (pauseF_qf hA.q x) hkr (pauseF_s hA.k hA.s x h.k h.s)
+  · exact jf_of_qf h (playF_qf hA.q x) hkr (playF_s hA.s x h.k h.s)
+  · exact jf_of_qf h (killF_qf hA.q x) hkr (killF_s hA.k hA.s hA.q hac hnb x h.k h.s)
+  · exact jf_of_old hkr (resume_inv10 x.l.c _ h.old) h.s.2
+  · exact jf_of_qf h (failF_qf hA.q x _) hkr (failF_s hA.k hA.s hA.q hac hnb x _ h.k h.s)
+  · exact jf_of_old hkr (cancelFut_inv10 x.l.c h.old) h.s.2
+  · exact jf_of_old hkr (complete_inv10 x.l.c _ _ h.old) h.s.2
+  · exact jf_of_old hkr (h.old.same rfl rfl rfl rfl rfl rfl rfl rfl) h.s.2
+
 end
+
+theorem fireNF_na {a0 : Arm} (hac : afterClose a0 = false) (hnb : NoTC a0) (n : Nat) : NA a0 (fireNF n) :=
+  ⟨fireNF_nk hac n, fireNF_ns hac hnb n, fireNF_qf n⟩
+
+theorem stepF_jf {a0 : Arm} (hac : afterClose a0 = false) (hnb : NoTC a0) (P : Prog) (x : FCfg) (ev : Ev) (h : JF a0 x) :
+    JF a0 (stepF P x ev).1 := stepFN_jf (fireNF_na hac hnb _) hac hnb P x ev h
+
+/-- **the linking invariant holds in every configuration of a run with an injected fault** (not `on_terminated` / `on_close`) -/
+theorem runF_jf {a0 : Arm} (hac : afterClose a0 = false) (hnb : NoTC a0) (P : Prog) (x0 : FCfg) (evs : List Ev) (h : JF a0 x0) :
+    JF a0 (runF P x0 evs) := by
+  induction evs generalizing x0 with
+  | nil => exact h
+  | cons e es ih => exact ih _ (stepF_jf hac hnb P x0 e h)
+
+theorem initX_jf (a0 : Arm) (nf : Nat) (plan : Plan) : JF a0 (initX nf plan (some a0)) :=
+  jf_of_old (initX_K a0 nf plan) (inv10_init nf) rfl
+
+/-- **`step_until_terminated()` returns after a hook fault**: in every terminated configuration of a run whose injected fault is
+not `on_terminated` / `on_close`, finitely many wake-ups end the stepping task normally -/
+theorem stepperF_returns_run {a0 : Arm} (hac : afterClose a0 = false) (hnb : NoTC a0) (P : Prog) (nf : Nat) (plan : Plan)
+    (evs : List Ev) (ht : terminal (runF P (initX nf plan (some a0)) evs).l.c.st.label = true) :
+    ∃ n, (runF P (runF P (initX nf plan (some a0)) evs) (List.replicate n .tick)).l.c.pc = .done := by
+  have h := (runF_jf hac hnb P _ evs (initX_jf a0 nf plan)).s.1
+  refine stepperF_returns P _ ht h.nocrash ?_ ?_ ?_
+  · intro pf pf' hpc hpa
+    exact h.tp pf hpc ht pf' hpa
+  · intro pf hpc
+    rcases (h.ap pf hpc).2 with hp | hp
+    · exact h.tp pf hpc ht pf hp
+    · exact hp
+  · intro wf hpc
+    obtain ⟨hlt, hw⟩ := h.aw wf hpc
+    rcases hw with ⟨fn, wk, aw, hst⟩ | hn
+    · exact absurd hst ((not_live_of_terminal ht).2.2 fn wf wk aw)
+    · exact ⟨_, List.getElem?_eq_getElem hlt, by intro hp; rw [List.getElem?_eq_getElem hlt, hp] at hn; exact hn rfl⟩
+
 end FP
 end PMF
